@@ -713,14 +713,16 @@ func MakeTracesDependancyGraph(startEpoch int64, endEpoch int64, myid int64) map
 	spanIdToServiceName := make(map[string]string)
 	dependencyMatrix := make(map[string]map[string]int)
 
+	// span ids are only unique within a trace: key the lookup by (trace id, span id), so that a span is never
+	// treated as the child of a span of another trace
 	for _, span := range rawSpanData.Hits.Spans {
-		spanIdToServiceName[span.SpanID] = span.Service
+		spanIdToServiceName[span.TraceID+"/"+span.SpanID] = span.Service
 	}
 	for _, span := range rawSpanData.Hits.Spans {
 		if span.ParentSpanID == "" {
 			continue
 		}
-		parentService, parentExists := spanIdToServiceName[span.ParentSpanID]
+		parentService, parentExists := spanIdToServiceName[span.TraceID+"/"+span.ParentSpanID]
 		if !parentExists {
 			continue
 		}
